@@ -38,6 +38,12 @@
 #include <ompl/geometric/planners/informedtrees/AITstar.h>
 #include <ompl/geometric/planners/informedtrees/EITstar.h>
 #include <ompl/geometric/planners/informedtrees/EIRMstar.h>
+#include <ompl/multilevel/planners/qrrt/QRRT.h>
+#include <ompl/multilevel/planners/qrrt/QRRTStar.h>
+#include <ompl/multilevel/planners/qmp/QMP.h>
+#include <ompl/multilevel/planners/qmp/QMPStar.h>
+#include <ompl/base/spaces/SE2StateSpace.h>
+#include <ompl/base/spaces/RealVectorStateSpace.h>
 #include <string>
 #include <vector>
 
@@ -52,7 +58,8 @@ namespace vpl
         TWO_THREADED = 2,    // always spawns a solution-checking thread: driven under the scheduler only (C19)
         OPTIMIZING = 4,      // listed in C04
         COST_EXACT = 8,      // stored cost == recomputed path cost (no deferred propagation)
-        IGNORES_SAMPLER = 16 // informed planners: steered through U01/UNIT instead of the state-sampler seam
+        IGNORES_SAMPLER = 16, // informed planners: steered through U01/UNIT instead of the state-sampler seam
+        MULTILEVEL = 32       // multilevel (bundle-space) planners: two levels R^2 <- SE(2) on plain SE(2) problems, one level otherwise
     };
 
     template <class P>
@@ -103,6 +110,33 @@ namespace vpl
         return p;
     }
 
+    // multilevel planners: on a plain SE(2) problem the planner gets the level sequence [R^2, SE(2)] (projection guessed by the library);
+    // the base level's validity is the bundle's at heading 0 (the cell worlds do not depend on the heading). Everything else: one level.
+    template <class P>
+    ob::PlannerPtr mkML(const ob::SpaceInformationPtr &si)
+    {
+        auto sp = si->getStateSpace();
+        if (sp->getType() != ob::STATE_SPACE_SE2)
+            return std::make_shared<P>(si);
+        auto base = std::make_shared<ob::RealVectorStateSpace>(2);
+        base->setBounds(sp->as<ob::SE2StateSpace>()->getBounds());
+        auto bsi = std::make_shared<ob::SpaceInformation>(base);
+        ob::SpaceInformation *top = si.get();
+        bsi->setStateValidityChecker([top](const ob::State *s) {
+            ob::State *l = top->allocState();
+            auto *e = l->as<ob::SE2StateSpace::StateType>();
+            e->setXY(s->as<ob::RealVectorStateSpace::StateType>()->values[0], s->as<ob::RealVectorStateSpace::StateType>()->values[1]);
+            e->setYaw(0);
+            bool v = top->isValid(l);
+            top->freeState(l);
+            return v;
+        });
+        bsi->setStateValidityCheckingResolution(si->getStateValidityCheckingResolution());
+        bsi->setup();
+        std::vector<ob::SpaceInformationPtr> levels{bsi, si};
+        return std::make_shared<P>(levels);
+    }
+
     struct Ent
     {
         const char *name;
@@ -150,6 +184,10 @@ namespace vpl
             {"AITstar", mkAIT, EXACT_EDGES | OPTIMIZING | COST_EXACT | IGNORES_SAMPLER},
             {"EITstar", mkEIT, OPTIMIZING | COST_EXACT | IGNORES_SAMPLER},
             {"EIRMstar", mkEIRM, OPTIMIZING | COST_EXACT | IGNORES_SAMPLER},
+            {"QRRT", mkML<ompl::multilevel::QRRT>, MULTILEVEL},
+            {"QRRTStar", mkML<ompl::multilevel::QRRTStar>, MULTILEVEL},
+            {"QMP", mkML<ompl::multilevel::QMP>, MULTILEVEL},
+            {"QMPStar", mkML<ompl::multilevel::QMPStar>, MULTILEVEL},
         };
         return P;
     }
